@@ -20,9 +20,9 @@ PROPERTY = "C17"
 RULE = (
     "explicit-state BFS over public-operation histories: start states {configured ML machine, ML machine with per-component "
     "floors, MAP machine adapted from a prior, machine restored from HDF5} x every sequence of <= depth operations from a "
-    "menu of 33 (5 weight assignments incl. a list and a pruned component, 2 mean arrays, 3 variance arrays (some below the floors), 6 floor "
+    "menu of 38 (5 weight assignments incl. a list and a pruned component, 2 mean arrays, 3 variance arrays (some below the floors), 6 floor "
     "assignments (scalar low/high, per-feature, per-component low/high, default), 8 single EM steps (one per switch set), "
-    "deepcopy, pickle, HDF5 save->from_hdf5, load into self, one fit with 2 steps, training / re-configuring a shallow copy, handing the parameter arrays to another machine with higher floors, raising the floors of the prior afterwards); states de-duplicated by the full object "
+    "deepcopy, pickle, HDF5 save->from_hdf5, load into self, one fit with 2 steps, training / re-configuring a shallow copy, handing the parameter arrays to another machine with higher floors, raising the floors of the prior afterwards, 4 assign / change in place / assign-the-same-object-again sequences, an M-step that raises half-way and is caught); states de-duplicated by the full object "
     "state; the invariant is evaluated on every transition. A case (start, first op) is non-trivial when its search reached "
     ">= 2 distinct states; distinct = distinct (start, first op)"
 )
@@ -39,7 +39,8 @@ OPS = (
     + [("var", i) for i in range(3)]
     + [("floor", i) for i in range(6)]
     + [("em", i) for i in range(8)]
-    + [("deepcopy", 0), ("pickle", 0), ("hdf5", 0), ("load", 0), ("fit2", 0), ("sibling", 0), ("sibling", 1), ("sibling", 2), ("ubm_floor", 0)]
+    + [("deepcopy", 0), ("pickle", 0), ("hdf5", 0), ("load", 0), ("fit2", 0), ("sibling", 0), ("sibling", 1), ("sibling", 2), ("ubm_floor", 0),
+       ("inplace", 0), ("inplace", 1), ("inplace", 2), ("inplace", 3), ("em_error", 0)]
 )
 STARTS = ["ml", "ml_matrix_floor", "map", "restored"]
 
@@ -132,6 +133,40 @@ class _Apply:
                 other.update_means, other.update_variances, other.update_weights = True, True, True
                 other.max_fitting_steps = 1
                 other.fit(X.copy())
+        elif kind == "inplace":
+            # the caller keeps the array it assigned, changes it in place and assigns the very same object again
+            if i == 0:
+                a = np.array(np.broadcast_to(np.asarray(FL[0], float), (2,)))
+                m.variance_thresholds = a
+                a[...] = np.asarray(FL[2], float)
+                m.variance_thresholds = a
+            elif i == 1:
+                a = np.array(W[0], float)
+                m.weights = a
+                a[...] = np.asarray(W[1], float)
+                m.weights = a
+            elif i == 2:
+                a = np.array(MU[0], float)
+                m.means = a
+                a[...] = MU[1]
+                m.means = a
+            else:
+                a = np.array(VAR[0], float)
+                m.variances = a
+                a[...] = VAR[2]
+                m.variances = a
+        elif kind == "em_error":
+            # an M-step that fails half-way (statistics of another feature dimension); the caller catches the error and goes on
+            from bob.learn.em import GMMStats
+            from bob.learn.em import gmm as gmm_module
+
+            bad = GMMStats(2, 3)
+            bad.t, bad.n, bad.sum_px, bad.sum_pxx, bad.log_likelihood = 4, np.array([1.5, 2.5]), np.ones((2, 3)), np.full((2, 3), 2.0), -3.0
+            m.update_means, m.update_variances, m.update_weights = True, True, True
+            try:
+                gmm_module.m_step([bad], m)
+            except Exception:  # noqa: BLE001
+                pass
         elif kind == "ubm_floor":
             # the prior of a MAP machine gets higher floors afterwards: the machine's own floors and variances stay its own
             if m.ubm is not None:
